@@ -168,3 +168,62 @@ Print Assumptions C06_graph_rc_invariant_direct.
 Print Assumptions C06_graph_rc_invariant_direct_total.
 Print Assumptions C06_stranded_exact_direct.
 Print Assumptions C06_graph_direct_nonvacuous.
+
+(* ==== the SHARDED pipeline (work package e2e-sharded): no proviso left ============================================= *)
+(* C06_graph_rc_invariant_sharded: unstranded, within the guards of C04_sharded_assembly, any subset of the reads
+   reverse-complemented (the pieces, buckets, shard tables and shard graphs of the two runs may all differ), any
+   duplicate-free iteration orders of all shard tables: the two graphs are the same assembly.  From C04_sharded_assembly
+   + C06_assembly_of_flip + C04_assembly_unique.  Also across pipelines (sharded on the reads, direct on the flipped
+   reads), and stranded_exact for the sharded pipeline. *)
+From DBG Require Import Proofs.MspProofs Proofs.ShardProofs Proofs.E2eSharded Proofs.E2eShardedCorollaries.
+Local Open Scope nat_scope.
+
+Theorem C06_graph_rc_invariant_sharded : forall max_len K P perm thr mode variant fs (lreads : list lread) orders orders' bs gs g bs' gs' g',
+  params_ok max_len K P -> perm_ok P perm -> 4 <= K -> Forall lread_ok lreads ->
+  Forall (@NoDup dna) orders -> Forall (@NoDup dna) orders' -> variant <> 1%N ->
+  sharded max_len K P perm false thr mode variant lreads orders = Some (bs, gs, g) ->
+  sharded max_len K P perm false thr mode variant (flip_lreads fs lreads) orders' = Some (bs', gs', g') ->
+  same_assembly K false mode g g'.
+Proof. exact graph_rc_invariant_sharded. Qed.
+Theorem C06_graph_rc_invariant_sharded_direct : forall max_len K P perm thr mode variant fs (lreads : list lread) orders order' bs gs g g',
+  params_ok max_len K P -> perm_ok P perm -> 4 <= K -> Forall lread_ok lreads ->
+  Forall (@NoDup dna) orders -> NoDup order' -> variant <> 1%N ->
+  sharded max_len K P perm false thr mode variant lreads orders = Some (bs, gs, g) ->
+  direct K false thr mode 0 (flip_lreads fs lreads) order' = Some g' ->
+  same_assembly K false mode g g'.
+Proof. exact graph_rc_invariant_sharded_direct. Qed.
+Theorem C06_stranded_exact_sharded : forall max_len K P perm thr mode variant (lreads : list lread) orders bs gs g,
+  params_ok max_len K P -> perm_ok P perm -> 4 <= K -> Forall lread_ok lreads -> Forall (@NoDup dna) orders -> variant <> 1%N ->
+  sharded max_len K P perm true thr mode variant lreads orders = Some (bs, gs, g) ->
+  NoDup (graph_kmers K true g) /\
+  (forall x, In x (graph_kmers K true g) <->
+             In x (flat_map (kmers K) (map fst lreads)) /\
+             (thr <= N.of_nat (length (filter (dna_eqb x) (flat_map (kmers K) (map fst lreads)))))%N) /\
+  (forall w, In w (graph_links K true g) <->
+             In w (flat_map (kmers (S K)) (map fst lreads)) /\ In (firstn K w) (graph_kmers K true g) /\ In (skipn 1 w) (graph_kmers K true g)).
+Proof. exact stranded_exact_sharded. Qed.
+Print Assumptions C06_graph_rc_invariant_sharded.
+Print Assumptions C06_graph_rc_invariant_sharded_direct.
+Print Assumptions C06_stranded_exact_sharded.
+
+(* non-vacuity: the reads of the example above (palindrome TCGA), sharded (P = 2) on the reads and on the reads with the
+   second one flipped: the guards hold, both runs succeed (thr = 1), the graphs differ as lists *)
+Definition ex6_orders0 : list (list dna) :=
+  Eval vm_compute in
+    match pieces_of 64 4 2 None true ex6_reads with
+    | Some ps => map (fun b => match filter_set 4 false 1 (shard_seqs ps b) with
+                               | Some (T, _) => map (Compress.e_key pay) (sort_entries T) | None => [] end) (buckets_of ps)
+    | None => []
+    end.
+Example C06_graph_sharded_nonvacuous :
+  params_ok 64%N 4 2 /\ perm_ok 2 None /\ Forall lread_ok ex6_reads /\
+  Forall (@NoDup dna) ex6_orders0 /\ Forall (@NoDup dna) ex6_orders /\
+  exists bs gs g bs' gs' g',
+    sharded 64 4 2 None false 1 0 2 ex6_reads ex6_orders0 = Some (bs, gs, g) /\
+    sharded 64 4 2 None false 1 0 2 (flip_lreads ex6_flips ex6_reads) ex6_orders = Some (bs', gs', g') /\ g <> g'.
+Proof.
+  split; [repeat split; cbv; auto; discriminate|]. split; [exact I|]. split; [repeat constructor; cbv; auto|].
+  split; [repeat constructor; cbn; intuition discriminate|]. split; [repeat constructor; cbn; intuition discriminate|].
+  do 6 eexists. split; [vm_compute; reflexivity|]. split; [vm_compute; reflexivity|]. vm_compute. intro H. discriminate H.
+Qed.
+Print Assumptions C06_graph_sharded_nonvacuous.
